@@ -76,6 +76,12 @@ fn is_placeholder(n: usize, res: &Rows) -> Option<&'static str> {
 }
 
 pub fn check_system(sys: &Sys, with_subsets: bool) -> CaseOut {
+    check_system_opt(sys, with_subsets, true)
+}
+
+/// `with_lp`: also run remove_redundant_row_constraints (skipped for badly scaled systems, whose LPs are
+/// outside the solver's documented tolerance regime)
+pub fn check_system_opt(sys: &Sys, with_subsets: bool, with_lp: bool) -> CaseOut {
     let mut out = CaseOut::default();
     let n = sys.n;
     let poly = sys.poly();
@@ -167,7 +173,7 @@ pub fn check_system(sys: &Sys, with_subsets: bool) -> CaseOut {
             }
         }
     }
-    let rr = catch(|| poly.remove_redundant_row_constraints());
+    let rr = if with_lp { catch(|| poly.remove_redundant_row_constraints()) } else { Err("returned Err(skipped)".into()) };
     let rr = match rr {
         Ok(Ok(p)) => Ok(p),
         Ok(Err(e)) => {
@@ -284,6 +290,28 @@ pub fn run(tier: Tier) -> Report {
     let mut rep = Report::new("C15", tier, "exploration");
     let g = grid(tier);
     let total = par_cases(&g, |_, s| check_system(s, s.rows.len() <= 4));
+    // rows whose coefficients are tiny but not zero (they are constraints, not tautologies)
+    let tiny = 2f64.powi(-60);
+    let mut gt = vec![];
+    for m in 1..=2 {
+        gt.extend(systems(1, m, &[0.0, 1.0, tiny, -tiny], &[-1.0, 0.0, 1.0]));
+    }
+    gt.extend(systems(2, 1, &[0.0, 1.0, tiny, -tiny], &[-1.0, 0.0, 1.0]));
+    for (i, s) in systems(2, 2, &[0.0, 1.0, tiny, -tiny], &[-1.0, 1.0]).into_iter().enumerate() {
+        if i % 2 == 0 {
+            gt.push(s);
+        }
+    }
+    // a row is either tiny as a whole or of ordinary size: mixing 1 and 2^-60 in one row produces rows that
+    // differ from an ordinary row only at the level of f64 rounding, which remove_duplicate_rows merges by design
+    let gt: Vec<Sys> = gt
+        .into_iter()
+        .filter(|s| s.rows.iter().any(|(a, _)| a.iter().any(|v| v.abs() == tiny)))
+        .filter(|s| s.rows.iter().all(|(a, _)| !(a.iter().any(|v| v.abs() == tiny) && a.iter().any(|v| v.abs() == 1.0))))
+        .collect();
+    rep.set("systems_with_tiny_coefficients", gt.len() as u64);
+    let t2 = par_cases(&gt, |_, s| check_system_opt(s, true, false));
+    rep.absorb(t2);
     rep.set("systems_total", g.len() as u64);
     if let Some(s) = g.get(g.len() / 3) {
         rep.samples.push(json!({"n": s.n, "rows_A_b": s.rows}));
